@@ -179,7 +179,7 @@ class Gen:
         self.fns = []      # signatures of already generated functions: (params types, ret, recursive?)
         self.budget = 0
         self.features = {}
-        self.gate_self_operand = True     # open finding F-QBE-SELF-OPERAND: `x - x` on a variable inside a loop is miscompiled by QBE
+        self.gate_self_operand = False    # (was a gate for F-QBE-SELF-OPERAND, repaired by 340ec5d)
 
     def feat(self, k):
         self.features[k] = self.features.get(k, 0) + 1
